@@ -211,7 +211,7 @@ def register(reg):
         if s is None or not isinstance(s, VRef) or s.cls != SOCKS:
             return
         lid = lock_id(eng.heap_read(st, s, "SK._connect_lock"))
-        o = old.get("SK._connection", eng.initial_array("SK._connection", IntS))
+        o = eng.old_arr(old, "SK._connection", IntS)
         n = eng.heap_arr(st, "SK._connection", IntS)
         if lid in st.held:
             eng.assume(st, z3.Select(n, s.t) == z3.Select(o, s.t))
@@ -223,6 +223,7 @@ def register(reg):
     @reg.contract
     class SocksHandle(Contract):
         key = SOCKS + ".handle_async_request"
+        callsite_events = {'H11.__init__', 'H2.__init__', 'net.start_tls', 'call:httpcore._async.socks_proxy._init_socks5_connection', 'ci.handle_request', 'net.connect_tcp'}
         props = ("C11", "C10", "C16", "C05", "C06", "C15", "C14", "C04", "C08")
         raises = CONN_RAISES + ["Cancelled"]
         raises_props = ("C15",)
